@@ -71,9 +71,13 @@ def real_parse(group, param, date):
 
 def sym_eval(pp, x, ctx=None):
     from _gettsim.piecewise_functions import piecewise_polynomial
-    v, ctx = R.run(piecewise_polynomial, kwargs=dict(
-        x=x, thresholds=pp["thresholds"], rates=pp["rates"],
-        intercepts_at_lower_thresholds=pp["intercepts_at_lower_thresholds"]), ctx=ctx)
+    R.NONFINITE_IS_ERROR[0] = True     # symbolic * inf ends the path under an error guard ("noerr" obligation below)
+    try:
+        v, ctx = R.run(piecewise_polynomial, kwargs=dict(
+            x=x, thresholds=pp["thresholds"], rates=pp["rates"],
+            intercepts_at_lower_thresholds=pp["intercepts_at_lower_thresholds"]), ctx=ctx)
+    finally:
+        R.NONFINITE_IS_ERROR[0] = False
     return v, ctx
 
 
@@ -140,8 +144,12 @@ def check_schedule(ck, rs, group, param, date, deep):
         if r2 == "sat":
             xv = float(R.z3_to_fraction(m2.eval(x.t, model_completion=True)))
             try:
-                concrete_eval(pp, xv)
-                common.spurious("C18", f"{name}: error guard model x={xv} does not raise")
+                got = concrete_eval(pp, xv)
+                if math.isfinite(got):
+                    common.spurious("C18", f"{name}: error guard model x={xv} does not raise")
+                else:
+                    ck.violation(["nonfinite", group, param, str(date)], f"{name}: evaluation gives {got} at x={xv}",
+                                 {"kind": "eval", "group": group, "param": param, "date": str(date), "x": xv})
             except Exception as e:
                 ck.violation(["raises", group, param, str(date)], f"{name}: evaluation raises {type(e).__name__} at x={xv}",
                              {"kind": "eval", "group": group, "param": param, "date": str(date), "x": xv})
@@ -205,9 +213,13 @@ def multiplier_obligation(ck, group, param, date, pp, s):
     name = f"{group}.{param}@{date}"
     x = R.Sym(z3.Real("x"), float)
     m = R.Sym(z3.Real("m"), float)
-    v, ctx = R.run(piecewise_polynomial, kwargs=dict(
-        x=x, thresholds=pp["thresholds"], rates=pp["rates"],
-        intercepts_at_lower_thresholds=pp["intercepts_at_lower_thresholds"], rates_multiplier=m))
+    R.NONFINITE_IS_ERROR[0] = True
+    try:
+        v, ctx = R.run(piecewise_polynomial, kwargs=dict(
+            x=x, thresholds=pp["thresholds"], rates=pp["rates"],
+            intercepts_at_lower_thresholds=pp["intercepts_at_lower_thresholds"], rates_multiplier=m))
+    finally:
+        R.NONFINITE_IS_ERROR[0] = False
     ck.functions |= ctx.funcs
     diff = R.term_of(v, float) - ref_term_mult(s, x.t, m.t)
     tol = zfrac(EPS) + zfrac(fractions.Fraction(1, 10 ** 12)) * z3.If(x.t >= 0, x.t, -x.t)
@@ -230,8 +242,12 @@ def multiplier_obligation(ck, group, param, date, pp, s):
             xv = float(R.z3_to_fraction(m2.eval(x.t, model_completion=True)))
             mv = float(R.z3_to_fraction(m2.eval(m.t, model_completion=True)))
             try:
-                concrete_eval_mult(pp, xv, mv)
-                common.spurious("C18", f"{name}: multiplier error guard model x={xv} m={mv} does not raise")
+                got = concrete_eval_mult(pp, xv, mv)
+                if math.isfinite(got):
+                    common.spurious("C18", f"{name}: multiplier error guard model x={xv} m={mv} does not raise")
+                else:
+                    ck.violation(["nonfinite-multiplier", group, param, str(date)], f"{name}: evaluation with rates_multiplier gives {got} at x={xv}, m={mv}",
+                                 {"kind": "eval-multiplier", "group": group, "param": param, "date": str(date), "x": xv, "m": mv})
             except Exception as e:   # noqa: BLE001
                 ck.violation(["raises-multiplier", group, param, str(date)], f"{name}: evaluation with rates_multiplier raises {type(e).__name__} at x={xv}, m={mv}",
                              {"kind": "eval-multiplier", "group": group, "param": param, "date": str(date), "x": xv, "m": mv})
